@@ -184,7 +184,7 @@ def _c06(tier):
     st = []
     for im in ("0", "1"):
         for stage in ("deviations", "tokens", "diff"):
-            st.append(simple("%s-i%s" % (stage, im), "c06_xml_inputs", parts=16, deadline={"quick": 150, "thorough": 3000},
+            st.append(simple("%s-i%s" % (stage, im), "c06_xml_inputs", parts=16, deadline={"quick": 600, "thorough": 3000},
                              args={"quick": ["--stage", stage], "thorough": ["--stage", stage]}, env={"HWLOC_LIBXML_IMPORT": im, "HWLOC_LIBXML_EXPORT": "0", "ASAN_OPTIONS": "max_allocation_size_mb=512"}))
     return st
 
